@@ -43,8 +43,20 @@ func OrderCase(r *sim.R, k int, run Scheduler, errKind func(error) string) {
 			altAbsorbed = true
 		}
 	}
-	detail := map[string]string{"absorbed_cycle": fmt.Sprint(absorbed), "alt_absorbed_cycle": fmt.Sprint(altAbsorbed), "overlap": "false"}
+	// known finding O63: a reference path that runs through a setting which is itself a reference
+	// (${svc.port} with svc: "${defaults}") is walked while that reference may be under evaluation:
+	// whether the walk succeeds depends on which setting the read evaluates first
+	through := false
+	for _, p := range e.settingNames() {
+		if x := e.root[p].expr; x != nil && usesThroughName(x) {
+			through = true
+		}
+	}
+	detail := map[string]string{"absorbed_cycle": fmt.Sprint(absorbed), "alt_absorbed_cycle": fmt.Sprint(altAbsorbed), "overlap": "false", "through_name": fmt.Sprint(through)}
 	if altAbsorbed && r.Avoid["O21"] {
+		return
+	}
+	if through && r.Avoid["O63"] {
 		return
 	}
 	if absorbed {
@@ -143,4 +155,35 @@ func (e *E) buildQuiet() {
 	e.R.Trace = false
 	defer func() { e.R.Trace = tr }()
 	e.build()
+}
+
+// usesThroughName: does the expression hold a reference whose path runs through one of the
+// settings a..e (genName)?
+func usesThroughName(x Expr) bool {
+	found := false
+	var walk func(x Expr)
+	name := func(n Name) {
+		if n.Nested != nil {
+			walk(n.Nested)
+			return
+		}
+		if throughName(n.Path) {
+			found = true
+		}
+	}
+	walk = func(x Expr) {
+		switch v := x.(type) {
+		case *Ref:
+			name(v.Name)
+		case *Op:
+			name(v.Name)
+			walk(v.Arg)
+		case Cat:
+			for _, p := range v {
+				walk(p)
+			}
+		}
+	}
+	walk(x)
+	return found
 }
